@@ -73,6 +73,13 @@ class AbstractItemEncoder(object):
     def encodeValue(self, value, asn1Spec, encodeFun, **options):
         raise error.PyAsn1Error('Not implemented')
 
+    @staticmethod
+    def _isWrapped(component, wrapType):
+        # only an ANY value carrying the tags of the open type field is
+        # the field's complete encoding already
+        return (isinstance(component, univ.Any) and
+                wrapType.isSameTypeWith(component))
+
     def encode(self, value, asn1Spec=None, encodeFun=None, **options):
 
         if asn1Spec is None:
@@ -591,7 +598,7 @@ class SequenceEncoder(AbstractItemEncoder):
                     else:
                         chunk = encodeFun(component, asn1Spec, **options)
 
-                        if wrapType.isSameTypeWith(component):
+                        if self._isWrapped(component, wrapType):
                             substrate += chunk
 
                         else:
@@ -642,7 +649,7 @@ class SequenceEncoder(AbstractItemEncoder):
                     else:
                         chunk = encodeFun(component, componentSpec, **options)
 
-                        if componentSpec.isSameTypeWith(component):
+                        if self._isWrapped(component, componentSpec):
                             substrate += chunk
 
                         else:
@@ -676,7 +683,7 @@ class SequenceOfEncoder(AbstractItemEncoder):
             chunk = encodeFun(component, asn1Spec, **options)
 
             if (wrapType is not None and
-                    not wrapType.isSameTypeWith(component)):
+                    not self._isWrapped(component, wrapType)):
                 # wrap encoded value with wrapper container (e.g. ANY)
                 chunk = encodeFun(chunk, wrapType, **options)
 
